@@ -45,7 +45,7 @@ def run(ctx):
                  256: list(range(0, 131, 5)) + [55, 56, 63, 64, 119, 120, 127, 128], 384: [0, 1, 110, 111, 112, 113, 127, 128, 129, 239, 240],
                  512: [0, 1, 55, 110, 111, 112, 113, 127, 128, 129, 200, 239, 240, 256]}
     ctx.bounds.update({'unit': 'submit_flush_job_sha_{1,256,512} of sha_mb_mgr.h as instantiated for SHA-1/224/256/384/512 by sha_mb_sse.c (4 / 2 lanes)',
-                       'lengths': {str(k): sorted(set(v)) for k, v in small.items()}, 'data': 'every message byte symbolic', 'cbmc_unwind': 420})
+                       'lengths': {str(k): sorted(set(v)) for k, v in small.items()}, 'data': 'every message byte symbolic', 'cbmc_unwind': '420 (more where the longest listed message needs it: longest + 2 blocks + 11)'})
     ctx.assume('the multi-buffer block function is a per-lane compression over an uninterpreted function that advances data_ptr (what the SIMD rounds compute is outside solver reach); '
                'the reference is Merkle-Damgard padding folded with the same function')
     ctx.assume('message lengths are case-split, one query each (a symbolic length in one query does not finish: probe in DESIGN §4 C02)')
@@ -72,7 +72,8 @@ def run(ctx):
         if rc != 0:
             raise Inconclusive('link failed')
         nm = '%sSHA-%d multi-buffer manager, message length %d: tag == leading digest words of MD-pad(msg) over the uninterpreted compression; job parks, flush returns it with COMPLETED_AUTH' % ('WITNESS ' if wit else '', s, L)
-        res, fails, log = cbmc(ctx, q, nm, unwind=420, timeout=2400, expect='violated' if wit else 'discharged', trace=not wit, flags=flags)
+        uw = max(420, max(small[s]) + 2 + 1 + 2 * (128 if s in (384, 512) else 64) + 8)      # the reference's padding loop runs over MAXLEN + 1 + 2 blocks
+        res, fails, log = cbmc(ctx, q, nm, unwind=uw, timeout=2400, expect='violated' if wit else 'discharged', trace=not wit, flags=flags)
         os.unlink(q)
         return w, res, fails, log
 
